@@ -327,6 +327,9 @@ def run(rep, tier):
         clause_bc(facts, rep, m)
         clause_de(facts, rep, san)
         clause_f(facts, rep)
+        # the escape mask is built with `v < 0x20` on unsigned byte vectors: the wrapper operators must be unsigned (shared with C15)
+        from . import c15
+        c15.clause_h(facts, rep)
     rep.trust('clang 14 front end and constant evaluator', 'vector load/store widths in sv/primitives.py', 'page size 4096 (the value of PAGE_SIZE in quote.inc.h)')
     rep.assumptions += [
         'decides the escape tables, the length bound and reserve formula, the tail guard over every (page offset, tail length) pair in both macro branches, bounce buffer size and tail mask',
